@@ -7,6 +7,7 @@ import (
 	"hash/crc32"
 	"reflect"
 	"strings"
+	"sync"
 	"time"
 
 	"github.com/azihsoyn/rijndael256"
@@ -71,8 +72,27 @@ func readChunks(mode cipher.BlockMode, chunks [][]byte) (res []string) {
 						done <- "panic"
 					}
 				}()
-				ms, err := rscp.Read(&mode, &buf, &crcFlag, &frameSize, &dataSize, append([]byte{}, c...))
-				done <- resMsgs(ms, err)
+				// the caller's receive buffer: larger than the piece, reused (overwritten) after the call returns
+				backing := make([]byte, len(c)+64)
+				copy(backing, c)
+				for i := len(c); i < len(backing); i++ {
+					backing[i] = 0x5a
+				}
+				ms, err := rscp.Read(&mode, &buf, &crcFlag, &frameSize, &dataSize, backing[:len(c)])
+				r := resMsgs(ms, err)
+				for i := len(c); i < len(backing); i++ {
+					if backing[i] != 0x5a {
+						r = "overwrote-caller-memory"
+					}
+				}
+				for i := range backing {
+					backing[i] = 0xa5
+				}
+				if r != resMsgs(ms, err) && r != "overwrote-caller-memory" {
+					r = "result-shares-the-callers-buffer"
+				}
+				retain(ms, r)
+				done <- r
 			}()
 			select {
 			case s = <-done:
@@ -83,6 +103,41 @@ func readChunks(mode cipher.BlockMode, chunks [][]byte) (res []string) {
 		}())
 	}
 	return res
+}
+
+// decoded results are kept for a while and looked at again later: what a call returned must not change when the
+// decoder is used again (no sharing of buffers between results)
+type retained struct {
+	ms  []rscp.Message
+	str string
+}
+
+var retainMu sync.Mutex
+var retainedRes []retained
+
+func retain(ms []rscp.Message, str string) {
+	if len(ms) == 0 {
+		return
+	}
+	retainMu.Lock()
+	defer retainMu.Unlock()
+	if len(retainedRes) >= 32 {
+		retainedRes = retainedRes[1:]
+	}
+	retainedRes = append(retainedRes, retained{ms, str})
+}
+
+// retainedChanged re-renders the kept results; "" = all still what they were
+func retainedChanged() string {
+	retainMu.Lock()
+	defer retainMu.Unlock()
+	for _, r := range retainedRes {
+		if now := "ok " + msgsString(r.ms); now != r.str {
+			retainedRes = nil
+			return "a decoded result changed after later calls: was " + trunc(r.str, 80) + " now " + trunc(now, 80)
+		}
+	}
+	return ""
 }
 
 func readOnce(mode cipher.BlockMode, data []byte) string {
@@ -146,6 +201,7 @@ func rtCase(cw *caseWriter, ms [][]rscp.Message, crc bool, key string, now time.
 		var ct []byte
 		var err error
 		var impl string
+		before := msgsString(frame)
 		func() {
 			defer func() {
 				if r := recover(); r != nil {
@@ -159,17 +215,23 @@ func rtCase(cw *caseWriter, ms [][]rscp.Message, crc bool, key string, now time.
 				impl = "ok " + hexOf(rec.plain[len(rec.plain)-1])
 			}
 		}()
-		op := fmt.Sprintf("enc %s %d %d %s", c, now.Unix(), now.Nanosecond(), msgsString(frame))
-		cw.add(op, impl, lbl, "")
+		op := fmt.Sprintf("enc %s %d %d %s", c, now.Unix(), now.Nanosecond(), before)
+		encProp := ""
+		if after := msgsString(frame); after != before {
+			encProp = "FAIL * Write modified the caller's messages: " + trunc(after, 120)
+		}
+		cw.add(op, impl, lbl, encProp)
 		if !strings.HasPrefix(impl, "ok ") {
 			continue
 		}
 		plain := rec.plain[len(rec.plain)-1]
 		got := readOnce(dec, ct)
-		want := "ok " + msgsString(frame)
+		want := "ok " + before
 		prop := "pass"
 		if got != want {
 			prop = "FAIL C01 Read(Write(x)) != x: got " + trunc(got, 200)
+		} else if ch := retainedChanged(); ch != "" {
+			prop = "FAIL * " + ch
 		}
 		cw.add("dec "+hexOf(plain), got, lbl, prop)
 	}
@@ -299,6 +361,8 @@ func anyCase(cw *caseWriter, p []byte, label string) {
 	prop := "pass"
 	if got == "panic" || got == "hang" {
 		prop = "FAIL C02 decoder " + got
+	} else if got == "overwrote-caller-memory" || got == "result-shares-the-callers-buffer" {
+		prop = "FAIL * decoder: " + got
 	}
 	h := hexOf(p)
 	if !strings.HasPrefix(label, "N ") && !strings.HasPrefix(label, "T ") {
@@ -343,6 +407,23 @@ func chunkCase(cw *caseWriter, g *gen, p []byte, label string) {
 	for _, r := range res {
 		if r == "panic" || r == "hang" {
 			prop = "FAIL C02 decoder " + r
+		} else if r == "overwrote-caller-memory" || r == "result-shares-the-callers-buffer" {
+			prop = "FAIL * decoder: " + r
+		}
+	}
+	// Go-side oracle of C03 "chunking": the verdict for the pieces (the caller reuses its buffer between the calls) is
+	// the verdict for the whole; calls before the last one can only say "incomplete"
+	if prop == "pass" && len(res) > 0 {
+		whole := readOnce(identityMode{}, p)
+		last := res[len(res)-1]
+		early := false // a call before the last one already gave a verdict: what follows is a different stream
+		for _, r := range res[:len(res)-1] {
+			if r != "err invalidFrameLength" {
+				early = true
+			}
+		}
+		if !early && (strings.HasPrefix(whole, "ok ") || strings.HasPrefix(last, "ok ")) && whole != last {
+			prop = "FAIL C03 delivered in pieces the frame gives " + trunc(last, 80) + ", in one piece " + trunc(whole, 80)
 		}
 	}
 	if !strings.HasPrefix(label, "N ") && !strings.HasPrefix(label, "T ") {
@@ -504,6 +585,41 @@ func init() {
 				chunkCase(cw, g, p, fmt.Sprintf("N giant-frame data=%d crc=%v", dl, crc))
 			}
 		}
+		// value edges written by hand (the library's own writer cannot produce all of them): time stamps with every
+		// combination of extreme seconds and nanosecond fields (negative, ≥ 10⁹, top bit set), numbers at their range
+		// ends, booleans other than 0/1, empty and NUL-carrying strings — top level, nested, last and not last
+		le := func(v uint64, n int) []byte {
+			b := make([]byte, n)
+			for i := 0; i < n; i++ {
+				b[i] = byte(v >> (8 * uint(i)))
+			}
+			return b
+		}
+		var edgeItems [][]byte
+		for _, sec := range []uint64{0, 1, 0xffffffffffffffff, 0x7fffffffffffffff, 0x8000000000000000, 253402300800, 0xfffffff1886e0900} {
+			for _, ns := range []uint64{0, 1, 999999999, 1000000000, 0x7fffffff, 0x80000000, 0xffffffff, 0xc4653600, 0xc46535ff} {
+				edgeItems = append(edgeItems, itemBytes(0x00800001, 0x0f, append(le(sec, 8), le(ns, 4)...)))
+			}
+		}
+		for _, tc := range []struct {
+			dt byte
+			n  int
+		}{{1, 1}, {2, 1}, {3, 1}, {4, 2}, {5, 2}, {6, 4}, {7, 4}, {8, 8}, {9, 8}, {10, 4}, {11, 8}, {12, 1}, {0xff, 4}} {
+			for _, v := range []uint64{0, 1, 2, 0x7f, 0x80, 0xff, 0x7fff, 0x8000, 0xffff, 0x7fffffff, 0x80000000, 0xffffffff, 0x7fffffffffffffff, 0x8000000000000000, 0xffffffffffffffff, 0x7fc00001, 0x7ff8000000000001} {
+				edgeItems = append(edgeItems, itemBytes(0x00800002, tc.dt, le(v, tc.n)))
+			}
+		}
+		for _, str := range []string{"", "\x00", "a\x00b", "\xff\xfe", strings.Repeat("\x00", 40)} {
+			edgeItems = append(edgeItems, itemBytes(0x00800003, 0x0d, []byte(str)), itemBytes(0x00800004, 0x10, []byte(str)))
+		}
+		for k, it := range edgeItems {
+			crc := k%2 == 0
+			other := itemBytes(0x00800005, 3, []byte{9})
+			anyCase(cw, padBlocks(frameBytes(it, crc, 1, 2)), "N value-edge alone")
+			anyCase(cw, padBlocks(frameBytes(append(append([]byte{}, it...), other...), !crc, 1, 2)), "N value-edge first")
+			nested := itemBytes(0x00800006, 0x0e, append(append([]byte{}, other...), it...))
+			anyCase(cw, padBlocks(frameBytes(nested, crc, 1, 2)), "N value-edge nested-last")
+		}
 		if thorough {
 			// every control word on a fixed small frame, with and without matching CRC
 			ms := []rscp.Message{{Tag: rscp.BAT_INDEX, DataType: rscp.UInt16, Value: uint16(7)}}
@@ -531,6 +647,7 @@ func init() {
 
 func valCase(cw *caseWriter, ms []rscp.Message, label string) {
 	var impl string
+	before := msgsString(ms)
 	func() {
 		defer func() {
 			if r := recover(); r != nil {
@@ -546,8 +663,10 @@ func valCase(cw *caseWriter, ms []rscp.Message, label string) {
 	prop := "pass"
 	if impl == "panic" {
 		prop = "FAIL C05 validateRequests panics"
+	} else if after := msgsString(ms); after != before {
+		prop = "FAIL * validateRequests modified the caller's messages: " + trunc(after, 120)
 	}
-	cw.add("val "+msgsString(ms), impl, nt(!strings.HasPrefix(label, "valid items=1 "))+" "+label, prop)
+	cw.add("val "+before, impl, nt(!strings.HasPrefix(label, "valid items=1 "))+" "+label, prop)
 }
 
 func (g *gen) requestList() []rscp.Message {
@@ -606,6 +725,28 @@ func init() {
 				m := rscp.Message{Tag: rscp.INFO_REQ_UTC_TIME, DataType: rscp.DataType(c), Value: v}
 				valCase(cw, []rscp.Message{m}, fmt.Sprintf("type-code=%d top", c))
 				valCase(cw, []rscp.Message{{Tag: rscp.BAT_REQ_DATA, DataType: rscp.Container, Value: []rscp.Message{m}}}, fmt.Sprintf("type-code=%d nested", c))
+			}
+		}
+		// values of defined (named) Go types whose underlying type would fit, under every data type
+		for _, dt := range definedTypes {
+			for k, v := range namedValues {
+				m := rscp.Message{Tag: rscp.INFO_REQ_UTC_TIME, DataType: dt, Value: v}
+				valCase(cw, []rscp.Message{m}, fmt.Sprintf("named-type=%d dt=%d top", k, dt))
+				valCase(cw, []rscp.Message{{Tag: rscp.BAT_REQ_DATA, DataType: rscp.Container, Value: []rscp.Message{m}}}, fmt.Sprintf("named-type=%d dt=%d nested", k, dt))
+			}
+		}
+		// an item declared value-less that carries the value its tag's table type would take (and others)
+		for _, dt := range definedTypes {
+			ts := g.byType[dt]
+			if len(ts) == 0 || dt == rscp.None {
+				continue
+			}
+			for j := 0; j < 3; j++ {
+				t := ts[g.pick(len(ts))] | 0 // request or response side, as the table has it
+				b := 100
+				m := rscp.Message{Tag: t, DataType: rscp.None, Value: g.value(dt, 1, &b)}
+				valCase(cw, []rscp.Message{m}, fmt.Sprintf("none-with-tag-typed-value dt=%d", dt))
+				valCase(cw, []rscp.Message{{Tag: rscp.BAT_REQ_DATA, DataType: rscp.Container, Value: []rscp.Message{m}}}, fmt.Sprintf("none-with-tag-typed-value dt=%d nested", dt))
 			}
 		}
 		// sizes around the limits
